@@ -43,6 +43,7 @@ def check(ctx, tier):
     tk.purity("C09.p", [ctx.func(q) for q in ['raggedarray.RaggedArray.sum', 'raggedarray.RaggedArray.mean', 'raggedarray.RaggedArray.col_counts', 'raggedarray.indexablearray.IndexableArray.get_column_values']], "the operation does not write into its operands' buffers", content_only=True)
     from .. import hazards as _hz, scopes as _sc
     _hz.generic(ctx, tk, "C09.z", _sc.scope(tk, "C09", depth=1))
+    _hz.h27_positional_arguments_dropped(ctx, tk, "C09.z/H27", [f_ for f_ in (ctx.program.funcs.get(q_) for q_ in ['arrayfunctions.get_ra_func']) if f_ is not None])
     return {}
 
 
